@@ -6,15 +6,34 @@ import checklib
 
 
 def extract(ctx):
-    """regenerate lean/Ecal/Gen/C19.lean (shape of ECALFunctionAdapter.Run) from the tree under test"""
+    """regenerate lean/Ecal/Gen/C19.lean (three-valued facts about stdlib/*.go) from the tree under test.
+    A fact that is merely not established (source shape not understood) is no alarm: it is noted in
+    the evidence and the correspondence search is amplified to the thorough enumeration."""
+    import json
     binp = checklib.go_build(ctx)
     out = os.path.join(checklib.LEAN, "Ecal", "Gen", "C19.lean")
     if os.path.exists(out):
         os.remove(out)
     p = subprocess.run([binp, "C19", "-tool", out], env=dict(checklib.GOENV, VERIF_REPO=checklib.REPO),
-                       stdout=subprocess.PIPE, stderr=subprocess.STDOUT, text=True, timeout=120)
+                       stdout=subprocess.PIPE, stderr=subprocess.PIPE, text=True, timeout=120)
     if p.returncode != 0 or not os.path.exists(out):
-        raise checklib.CheckError("C19 extractor failed: " + p.stdout[-600:])
+        raise checklib.CheckError("C19 extractor failed: " + (p.stderr or p.stdout)[-600:])
+    facts = json.loads(p.stdout.strip().splitlines()[-1])
+    ctx.coverage["source_facts"] = facts
+    ctx.c19_amplify = False
+    for name, f in sorted(facts.items()):
+        if f["fact"] == "unknown":
+            ctx.c19_amplify = True
+            ctx.notes.append(f"source fact '{name}' NOT ESTABLISHED for this source shape ({f['why']}): the theorems "
+                             "assume it; search amplified to the thorough enumeration")
+            ctx.log(f"fact '{name}' not established: {f['why']} -> amplified search")
+        elif f["fact"] == "no":
+            ctx.log(f"fact '{name}' REFUTED: {f['why']}")
+
+
+def extra_args(ctx):
+    # a later -tier overrides the earlier one on the harness command line
+    return ["-tier", "thorough"] if getattr(ctx, "c19_amplify", False) else []
 
 
 def decode(p):
@@ -30,22 +49,24 @@ SPEC = dict(
     lean_modules=["Ecal.Props.C19"],
     shards=16,
     extract=extract,
+    extra_args=extra_args,
     rule=("cases = (bridged function, mode, argument vector): ~69 synthetic Go functions wrapped with "
           "stdlib.NewECALFunctionAdapter (every numeric parameter kind echoing its argument, string/bool/list/map, "
           "interface and foreign parameter types, several parameters, zero-arg constants of every result kind incl. "
           "2^53 / MaxUint64, trailing error nil/non-nil/not last, six panicking bodies, variadic of several kinds, "
           "defined types of primitive kind (time.Duration style) as parameter and result, two non-functions) + 12 plugin functions (util.ECALPluginFunction: returning values, errors, panicking on a missing / NULL / wrong-kind argument, explicit panic, nil-map write, nil dereference) registered through the real stdlib.AddStdlibPluginFunc / LoadStdlibPlugin via the package's pluginTestLookup hook + every function of the generated stdlib (enumerated from GetStdlibSymbols) x all "
-          "argument vectors over a 27-value universe {null,true,false,0,-1,1,1.5,127,128,255,256,2^31,2^53,1e300,NaN,"
-          "'','a','1',[],[1],{},{'a':1},an ECAL function,-129,-0.5,2^63,-Inf}: Run called directly for length <=2 "
+          "argument vectors over a 28-value universe {null,true,false,0,-1,1,1.5,127,128,255,256,2^31,2^53,1e300,NaN,"
+          "'','a','1',[],[1],{},{'a':1},an ECAL function,-129,-0.5,2^63,-Inf,1.5*2^63}: Run called directly for length <=2 "
           "(quick) / <=3 (thorough) exhaustively and 3 / 4,5 sampled, through the interpreter (arguments as ECAL literals "
           "where one exists) and inside try (arguments in variables) for length <=2 exhaustively and 3 (thorough: 3 and 4) sampled. Compared: outcome class (value / the function's own "
           "error / bridge error / escaped panic), the returned value (float64 bits, canonical structure), and the "
-          "Go values the function RECEIVED (kind + exact integer). Non-trivial = the call reaches the function body."),
+          "Go values the function RECEIVED (kind + exact integer); where an argument is converted out of its parameter kind's range "
+          "(implementation-defined in Go) only the outcome class is compared. Non-trivial = the call reaches the function body."),
     exhaustive="all argument vectors up to the stated length for every function",
     trusted_base=[
         "reflect's behaviour (Call panics, TypeOf, Kind) as modelled in Ecal.Bridge — tied by the correspondence run",
-        "the go/ast extractor of the shape of Run (harness C19 -tool): defer of a closure calling recover() and assigning the named error result",
-        "the go/ast extractor of how AddStdlibPluginFunc stores a plugin function (an ECALFunctionAdapter around a func(...interface{}) (interface{}, error) closure); the harness sets stdlib.pluginTestLookup (unexported test hook) by go:linkname",
+        "the go/ast extractor of three source facts (harness C19 -tool, go/cmd/harness/c19extract.go), decided semantically and three-valued: Run defers a function (literal or same-package) that itself calls recover() and assigns the named error result; the argument count is compared with NumIn() before Call (Run or one level of helpers); plugin functions are registered as ECALFunctionAdapter. Only a refuted fact breaks an obligation; an unestablished one is assumed, noted, and answered with an amplified search",
+        "the harness sets stdlib.pluginTestLookup (unexported test hook) by go:linkname",
         "out-of-range float->integer conversion is implementation-defined in Go: the platform's value is handed to the model as an oracle and no exactness theorem covers it",
         "bodies of the generated stdlib (math.*) are assumed not to panic (checked by every run); math.jn/math.yn with |order| > 256 are left out (slow bodies)",
     ],
